@@ -6,6 +6,7 @@ import Pyunicorn.Lemmas.RelabelCircuit
 import Pyunicorn.Lemmas.RelabelGeoRec
 import Pyunicorn.Lemmas.RelabelR4
 import Pyunicorn.Lemmas.RelabelRec4
+import Pyunicorn.Lemmas.RelabelAssort
 import Mathlib.Algebra.BigOperators.Group.List.Basic
 import Mathlib.Data.List.Nodup
 /-!
@@ -362,6 +363,21 @@ theorem net_coreness_relabel (h : IsPerm n idx) (a : Adj) (directed : Bool) :
 theorem net_coreness_entry (h : IsPerm n idx) (a : Adj) (directed : Bool) (v : Nat) (hv : v < n) :
     (coreness n (mat a idx) directed).getD v 0 = (coreness n a directed).getD (idx v) 0 := by
   rw [coreness_relabel h a directed, nodeList_getD n idx 0 _ v hv]
+
+/-- **assortativity** (round 4; was oracle-only): the Python loop over `graph.get_edgelist()` with
+its three accumulators and both `ZeroDivisionError` branches returns the same value (or raises
+alike) on the renumbered network, although its edge list holds the links in another order and — on
+undirected networks (symmetric adjacency matrix) — in other orientations.  `sum_edgeList_relabel`:
+every sum of a symmetric summand over the edge list is numbering independent. -/
+theorem net_assortativity_relabel (h : IsPerm n idx) (directed : Bool) (a : Adj)
+    (hsym : directed = false → ∀ i j, a i j = a j i) :
+    assortativity directed n (mat a idx) = assortativity directed n a ∧
+    (edgeList directed n (mat a idx)).length = (edgeList directed n a).length := by
+  refine ⟨assortativity_relabel h directed a hsym, ?_⟩
+  have := sum_edgeList_relabel h directed a hsym (fun _ _ => 1) (fun _ _ => 1) (fun _ _ => rfl)
+    (fun _ _ _ _ => rfl)
+  rw [sum_ones, sum_ones] at this
+  exact_mod_cast this
 
 /-! ## C11 model: cross / internal measures, node lists renumbered with the network -/
 open Pyunicorn.Cross
@@ -745,6 +761,9 @@ example : coreness 4 exAdj false = [1, 1, 1, 0] ∧
     coreness 4 (mat exAdj exPerm) false = [1, 1, 0, 1] ∧
     dist 4 (mat exAdj exPerm) 0 3 = some 1 ∧ dist 4 exAdj 2 1 = some 1 ∧
     dist 4 (mat exAdj exPerm) 0 2 = none := by decide +kernel
+example : edgeList false 4 exAdj = [(0, 1), (1, 2)] ∧
+    edgeList false 4 (mat exAdj exPerm) = [(0, 3), (1, 3)] ∧
+    assortativity false 4 exAdj = some (-1) := by decide +kernel
 example : nodes 4 exPerm [0, 3] = [1, 2] ∧ (nodes 4 exPerm [0, 3]).map exPerm = [0, 3] := by
   decide +kernel
 /-- links of the path 0 — 1 — 2 listed in two different orders / orientations -/
